@@ -558,6 +558,25 @@ class Connection(ExportImport):
         self._added_during_commit = None
 
     def _store_objects(self, writer, transaction):
+        try:
+            self._store_objects_of(writer, transaction)
+        except:  # noqa: E722 do not use bare 'except'
+            # New objects that the writer has given an oid and this
+            # connection while it serialized an object referring to them
+            # are still waiting to be stored.  They have no record and are
+            # not in the cache, so nothing else can find and disown them,
+            # and a dangling reference would be written when they are
+            # attached again.
+            for obj in writer:
+                if (getattr(obj, '_p_serial', z64) == z64
+                        and obj._p_oid not in self._creating
+                        and obj._p_oid not in self._added
+                        and self._cache.get(obj._p_oid) is not obj):
+                    del obj._p_jar
+                    del obj._p_oid
+            raise
+
+    def _store_objects_of(self, writer, transaction):
         for obj in writer:
             oid = obj._p_oid
             serial = getattr(obj, "_p_serial", z64)
